@@ -82,4 +82,5 @@ def replay(pid, rec):
     os.environ["PYTHONPATH"] = vp + (":" + os.environ["PYTHONPATH"] if os.environ.get("PYTHONPATH") else "")
     b = pybuild.py_build(cfg)
     b["env"]["PYTHONPATH"] = vp + ":" + b["env"]["PYTHONPATH"]
-    return pyprops.replay_scenario(cfg, "c20_vec.py", d.get("tier", "quick"), d.get("seed", 1), scen)
+    b["env"]["C20_CREF"] = cref_build()
+    return pyprops.replay_scenario(cfg, d.get("script") or "c20_vec.py", d.get("tier", "quick"), d.get("seed", 1), scen)
